@@ -19,6 +19,9 @@ func (in *Interp) exec(fr *Frame, env Env, ins ssa.Instruction) {
 	case *ssa.BinOp:
 		env[i] = in.binop(i.Op, in.get(env, i.X), in.get(env, i.Y), i.X.Type(), i.Y.Type())
 	case *ssa.UnOp:
+		if i.Op == token.MUL {
+			in.raceAccess(in.get(env, i.X), false)
+		}
 		env[i] = in.unop(i, in.get(env, i.X))
 	case *ssa.Call:
 		env[i] = in.call(fr, env, &i.Call, i)
@@ -41,10 +44,11 @@ func (in *Interp) exec(fr *Frame, env Env, ins ssa.Instruction) {
 	case *ssa.IndexAddr:
 		env[i] = in.indexAddr(in.get(env, i.X), in.get(env, i.Index), i.Index.Type())
 	case *ssa.Lookup:
+		in.raceMap(in.get(env, i.X), false)
 		env[i] = in.lookup(in.get(env, i.X), in.get(env, i.Index), i.Index.Type(), i.CommaOk, i.X.Type())
 	case *ssa.MakeChan:
 		in.nobj++
-		env[i] = &ChanVal{C: &ChanObj{ID: in.nobj}}
+		env[i] = &ChanVal{C: &ChanObj{ID: in.nobj, Cap: in.concreteInt(in.get(env, i.Size), "make chan size")}}
 	case *ssa.MakeClosure:
 		b := make([]Value, len(i.Bindings))
 		for k, x := range i.Bindings {
@@ -71,14 +75,17 @@ func (in *Interp) exec(fr *Frame, env Env, ins ssa.Instruction) {
 		o := in.newObject(&ArrayVal{E: e}, "makeslice")
 		env[i] = &SliceVal{Obj: o, Off: 0, Len: n, Cap: c}
 	case *ssa.MapUpdate:
+		in.raceMap(in.get(env, i.Map), true)
 		in.mapUpdate(in.get(env, i.Map), in.get(env, i.Key), in.get(env, i.Value))
 	case *ssa.Range:
+		in.raceMap(in.get(env, i.X), false)
 		env[i] = in.rangeStart(in.get(env, i.X))
 	case *ssa.Next:
 		env[i] = in.next(in.get(env, i.Iter).(*IterVal), i)
 	case *ssa.Slice:
 		env[i] = in.sliceOp(i, env)
 	case *ssa.Store:
+		in.raceAccess(in.get(env, i.Addr), true)
 		in.store(in.get(env, i.Addr), in.get(env, i.Val))
 	case *ssa.TypeAssert:
 		env[i] = in.typeAssert(in.get(env, i.X), i)
